@@ -62,13 +62,14 @@ pub fn ring_plain<T: Elem + Clone + PartialEq + std::fmt::Debug>(cx: &mut Ctx, c
                             while let Some(x) = c2.pop_front() { let _ = e.push_back(if i == pos { T::other_than(x.id()) } else { x }); i += 1; }
                             if q == e || e == q { return Some(format!("op {:?}: == is true for queues that differ at position {} of {}", o, pos, n)); }
                         } }
-                12 => { let got = T::parse_debug(&format!("{:?}", q)); if !got.iter().copied().eq(shadow.iter().copied()) { return Some(format!("op {:?}: Debug shows {} elements {:?}.., a VecDeque holds {}", o, got.len(), &got[..got.len().min(8)], shadow.len())); } }
+                12 => { let _ = format!("{:?}", q); }   // must not panic; the text itself is compared only for element types that mark their ids (ring_history)
                 _ => {}
             }
             if q.len() != shadow.len() || q.is_empty() != shadow.is_empty() || q.capacity() < q.len() { return Some(format!("after op {:?}: len() = {} (capacity {}), a VecDeque holds {}", o, q.len(), q.capacity(), shadow.len())); }
             if q.front().map(|x| x.id()) != shadow.front().copied() || q.back().map(|x| x.id()) != shadow.back().copied() {
                 return Some(format!("after op {:?}: front/back = {:?}/{:?}, VecDeque {:?}/{:?}", o, q.front().map(|x| x.id()), q.back().map(|x| x.id()), shadow.front(), shadow.back())); }
-            if shadow.len() <= 48 { let got = T::parse_debug(&format!("{:?}", q)); if !got.iter().copied().eq(shadow.iter().copied()) { return Some(format!("after op {:?}: holds {:?}, a VecDeque holds {:?}", o, got, shadow)); } }
+            if shadow.len() <= 48 { let mut c = q.clone(); let mut got = vec![]; while let Some(x) = c.pop_front() { got.push(x.id()); if got.len() > 100 { break; } }
+                if !got.iter().copied().eq(shadow.iter().copied()) { return Some(format!("after op {:?}: a clone drains to {:?}, a VecDeque holds {:?}", o, got, shadow)); } }
         }
         // the whole sequence, drained in blocks
         let mut got: Vec<u64> = vec![];
@@ -105,8 +106,11 @@ pub fn fixed_plain<T: Elem + std::fmt::Debug, const N: usize>(cx: &mut Ctx, cell
             if q.len() != shadow.len() || q.is_empty() != shadow.is_empty() || q.is_full() != (shadow.len() == N) || q.capacity() != N { return Some(format!("after op {:?}: len() = {}, is_full() = {}, a bounded VecDeque holds {} of {}", o, q.len(), q.is_full(), shadow.len(), N)); }
             if q.front().map(|x| x.id()) != shadow.front().copied() || q.back().map(|x| x.id()) != shadow.back().copied() {
                 return Some(format!("after op {:?}: front/back = {:?}/{:?}, VecDeque {:?}/{:?}", o, q.front().map(|x| x.id()), q.back().map(|x| x.id()), shadow.front(), shadow.back())); }
-            let got = T::parse_debug(&format!("{:?}", q)); if !got.iter().copied().eq(shadow.iter().copied()) { return Some(format!("after op {:?}: holds {:?}, a VecDeque holds {:?}", o, got, shadow)); }
+            let _ = format!("{:?}", q);
         }
+        // the whole sequence
+        let mut got = vec![]; while let Some(x) = q.pop_front() { got.push(x.id()); if got.len() > N + 2 { break; } }
+        if !got.iter().copied().eq(shadow.iter().copied()) { return Some(format!("draining returned {:?}, a VecDeque holds {:?}", got, shadow)); }
         None
     });
     match r { Err(p) => cx.sum.fail(cell, None, cj, &format!("panicked: {}", p)), Ok(Some(d)) => cx.sum.fail(cell, None, cj, &d), Ok(None) => {} }
@@ -412,7 +416,8 @@ pub fn run_all(cx: &mut Ctx, args: &Args, rng: &mut Rng) {
     ];
     for (tag, sizes) in big_cells.iter() { for &n in sizes.iter() { for d in [0u64, 1] { stage(&format!("{} {}", tag, n + d)); vec_cell(cx, tag, if d == 0 { 0 } else { 3 }, (0, true), &big_script(n + d, !tag.starts_with("cachevec")), Coq::Never); } } }
     for (tag, n) in [("ring_u64", 4096u64), ("ring_u64", 65536), ("ring_u64", 1 << 20), ("ring_u8", 65536), ("ring_w3", 4096), ("ring_i16", 65535)] {
-        for cap in [0u64, 8] { stage(&format!("{} {}", tag, n)); queue_cell(cx, tag, cap, true, &big_ring_script(n)); } }
+        // initial capacities: the default, a small one (growth all the way), and one past the size itself (rounded up once, by with_capacity)
+        for cap in [0u64, 8, n + 1] { stage(&format!("{} {}", tag, n)); queue_cell(cx, tag, cap, true, &big_ring_script(n)); } }
     // ---- string sets: more than 512 strings (block search of SortableStrVec::binary_search, rank-select blocks of
     //      ZoSortedStrVec), 2^16 strings, and the length limits of the index entries ----
     for kind in 0..STR_KINDS {
